@@ -121,6 +121,26 @@ Definition fast_rev {A} (l : list A) : list A := rev_append l [].
 Lemma fast_rev_eq {A} (l : list A) : fast_rev l = rev l.
 Proof. unfold fast_rev. symmetry. apply rev_alt. Qed.
 
+Lemma skipn_skipn' {A} (a b : nat) (l : list A) : skipn a (skipn b l) = skipn (b + a) l.
+Proof.
+  revert l; induction b as [|b IH]; intros l; cbn [skipn Nat.add]; [reflexivity|].
+  destruct l as [|x l]; [destruct a; reflexivity | apply IH].
+Qed.
+
+Lemma firstn_plus {A} (a m : nat) (l : list A) :
+  firstn (a + m) l = firstn a l ++ firstn m (skipn a l).
+Proof.
+  revert l; induction a as [|a IH]; intros l; cbn [Nat.add firstn skipn app]; [reflexivity|].
+  destruct l as [|x l]; [destruct m; reflexivity|]. cbn [app]. f_equal. apply IH.
+Qed.
+
+Lemma firstn_min {A} (n : nat) (l : list A) : firstn n l = firstn (Nat.min n (length l)) l.
+Proof.
+  destruct (Nat.le_ge_cases n (length l)) as [H|H].
+  - rewrite Nat.min_l by exact H. reflexivity.
+  - rewrite Nat.min_r by exact H. rewrite !firstn_all2; [reflexivity | lia | lia].
+Qed.
+
 Definition opt_bind {A B} (o : option A) (f : A -> option B) : option B :=
   match o with Some a => f a | None => None end.
 
